@@ -7,6 +7,7 @@ import RawPanelVerif.Driver.Net
 import RawPanelVerif.Driver.Gfx
 import RawPanelVerif.Driver.Topology
 import RawPanelVerif.Driver.SvgIcon
+import RawPanelVerif.Driver.ConvOut
 /-!
 Driver: reads records `cmd arg… | implementation-output` on stdin, prints one answer line per record:
 `EQ|NE  H1|H0:<clause>  [model output when NE]`.  State is per family and persists across lines.
@@ -42,6 +43,7 @@ def stepLine (st : DriverSt) (line : String) : DriverSt × String :=
     let (m, out) := Driver.Topo.step st.topo cmd args impl
     ({ st with topo := m }, out)
   else if cmd.startsWith "svg." then (st, Driver.Svg.step cmd args impl)
+  else if cmd.startsWith "eout." || cmd.startsWith "dout." then (st, Driver.ConvOut.step cmd args impl)
   else (st, "ERR unknown-family")
 
 partial def loop (h : IO.FS.Stream) (out : IO.FS.Stream) (st : DriverSt) : IO Unit := do
